@@ -56,13 +56,37 @@ let render_cells (cells : ocell list) : string =
     | ONl -> Buffer.add_char b '\n') cells;
   Buffer.contents b
 
+(* the characters of a cell as the model's own denotation [den] gives them (RenderColor.v) *)
+let render_atoms (b : Buffer.t) (atoms : atom list) : unit =
+  List.iter (function
+    | AC a -> Buffer.add_char b (char_of_ascii a)
+    | ADec n -> Buffer.add_string b (string_of_int (int_of_nat n))
+    | ASrc ch -> Buffer.add_string b (bytes_of_chr ch)) atoms
+
+let render_den (cells : ocell list) : string =
+  let b = Buffer.create 1024 in
+  List.iter (fun c -> render_atoms b (den c)) cells;
+  Buffer.contents b
+
+(* the `colored` crate (2.x): ESC[ (1;)? <fg> m  value  ESC[0m, padding applied to the value *)
+let esc_of (s : style) : string =
+  let fg = match s.st_col with CWhite -> "97" | CRed -> "91" | CYellow -> "93" | CBlue -> "94" | CGreen -> "92" in
+  "\027[" ^ (if s.st_bold then "1;" else "") ^ fg ^ "m"
+
+let render_coloured (cells : ccell list) : string =
+  let b = Buffer.create 2048 in
+  List.iter (function
+    | CP c -> render_atoms b (den c)
+    | CS (s, c) -> Buffer.add_string b (esc_of s); render_atoms b (den c); Buffer.add_string b "\027[0m") cells;
+  Buffer.contents b
+
 let hex (s : string) : string =
   let b = Buffer.create (2 * String.length s) in
   String.iter (fun c -> Buffer.add_string b (Printf.sprintf "%02x" (Char.code c))) s;
   Buffer.contents b
 
 let build (src : source) (named : bool) (displays : Sexp.t list) (force_error : bool) (ty : mtype) (code : bool) (msg : int)
-  : (ocell list) res =
+  : code_display res =
   let rec sds = function
     | [] -> Ok []
     | Sexp.L (Sexp.A "display" :: Sexp.L (Sexp.A "span" :: sp) :: hls) :: rest ->
@@ -75,8 +99,11 @@ let build (src : source) (named : bool) (displays : Sexp.t list) (force_error : 
        | Panic -> Panic | Fuel -> Fuel)
     | _ -> failwith "display" in
   match sds displays with
-  | Ok l -> cd_render src { cd_msg = nat_of_int msg; cd_ty = (if force_error then MError else ty); cd_code = (if force_error then false else code); cd_sds = l }
+  | Ok l -> Ok { cd_msg = nat_of_int msg; cd_ty = (if force_error then MError else ty); cd_code = (if force_error then false else code); cd_sds = l }
   | Panic -> Panic | Fuel -> Fuel
+
+let on_cd (r : code_display res) (f : code_display -> 'a res) : 'a res =
+  match r with Ok cd -> f cd | Panic -> Panic | Fuel -> Fuel
 
 let run_line (line : string) : string option =
   match Sexp.parse line with
@@ -88,10 +115,20 @@ let run_line (line : string) : string option =
     let ty = mtype_of (Sexp.atom (List.hd (f "mtype"))) in
     let code = Sexp.atom (List.hd (f "code")) = "1" in
     let msg = Sexp.int (List.hd (f "msg")) in
-    let plain = build src named (f "displays") false ty code msg in
-    let err = build src named (f "displays") true ty code msg in
-    let s_plain = match plain with Ok c -> hex (render_cells c) | Panic -> "PANIC" | Fuel -> "FUEL" in
-    (* the model has one rendering: coloured == plain modulo escapes, owned == borrowed, by construction *)
+    let cd = build src named (f "displays") false ty code msg in
+    let plain = on_cd cd (cd_render src) in
+    let coloured = on_cd cd (cd_render_c src) in
+    let err = on_cd (build src named (f "displays") true ty code msg) (cd_render src) in
+    (* the plain bytes twice: by the driver's own cell printer and through the model's denotation [den]; they must agree *)
+    let s_plain = match plain with
+      | Ok c -> let a = render_cells c and b = render_den c in if a = b then hex a else "DEN-MISMATCH"
+      | Panic -> "PANIC" | Fuel -> "FUEL" in
+    let s_col = match coloured with Ok c -> hex (render_coloured c) | Panic -> "PANIC" | Fuel -> "FUEL" in
+    (* colour-eq: the model's coloured rendering, styles stripped, against its plain rendering (theorem colour_strip_plain);
+       owned == borrowed by construction (the model has one kind of source) *)
+    let ceq = match plain, coloured with
+      | Ok p, Ok c -> if render_den (strip c) = render_den p then "T" else "F"
+      | _, _ -> "PANIC" in
     let tf r = match r with Ok _ -> "T" | _ -> "PANIC" in
-    Some (Printf.sprintf "(%s (plain %s) (colour-eq %s) (owned-eq %s) (owned-plain-eq %s))" id s_plain (tf plain) (tf err) (tf err))
+    Some (Printf.sprintf "(%s (plain %s) (colour %s) (colour-eq %s) (owned-eq %s) (owned-plain-eq %s))" id s_plain s_col ceq (tf err) (tf err))
   | _ -> None
